@@ -48,6 +48,9 @@ class Violation(Exception):
     pass
 
 
+AIR_TCS = list(range(9, 19)) + [20, 21, 22]   # barometric and GNSS-height airborne position type codes
+
+
 class Sim:
     """Plain-Python model + driver; every method takes JSON-able arguments (so a step list replays without Hypothesis)."""
 
@@ -162,9 +165,9 @@ class Sim:
         surface = ac["mode"] == "sfc"
         e = cpr.encode(ac["lat"], ac["lon"], parity, surface)
         if surface:
-            me = cpr.me_surface(5 + tc_off % 4, parity, e["yz"], e["xz"], bits & 127, (bits >> 7) & 1, (bits >> 8) & 127, 0)
+            me = cpr.me_surface(5 + tc_off % 4, parity, e["yz"], e["xz"], bits & 127, (bits >> 7) & 1, (bits >> 8) & 127, (bits >> 3) & 1)
         else:
-            me = cpr.me_airborne(9 + tc_off % 10, parity, e["yz"], e["xz"], self._alt12(bits), bits & 3, (bits >> 2) & 1, 0)
+            me = cpr.me_airborne(AIR_TCS[tc_off % 13], parity, e["yz"], e["xz"], self._alt12(bits), bits & 3, (bits >> 2) & 1, (bits >> 13) & 1)
         self.pos_log[addr][self.now] = (ac["lat"], ac["lon"], max(1e-3, e["dlat_step"]) + 1e-9, max(1e-3, e["dlon_step"]) + 1e-9)
         self._emit(addr, me, df)
 
@@ -478,19 +481,19 @@ class Machine(RuleBasedStateMachine):
         self.do("advance", dt)
 
     @precondition(lambda self: self.sim.acs)
-    @rule(idx=IDX, parity=st.integers(0, 1), tc_off=st.integers(0, 9), bits=gen.ubits(15), df=st.sampled_from([17, 17, 18]))
+    @rule(idx=IDX, parity=st.integers(0, 1), tc_off=st.integers(0, 12), bits=gen.ubits(15), df=st.sampled_from([17, 17, 18]))
     def position(self, idx, parity, tc_off, bits, df):
         self.do("position", idx, parity, tc_off, bits, df)
 
     @precondition(lambda self: self.sim.acs)
-    @rule(idx=IDX, parity=st.integers(0, 1), tc_off=st.integers(0, 9), bits=gen.ubits(15), dt=gen.ufloat(0.3, 6))
+    @rule(idx=IDX, parity=st.integers(0, 1), tc_off=st.integers(0, 12), bits=gen.ubits(15), dt=gen.ufloat(0.3, 6))
     def position_pair(self, idx, parity, tc_off, bits, dt):
         self.do("position", idx, parity, tc_off, bits, 17)
         self.do("advance", dt)
         self.do("position", idx, 1 - parity, tc_off, bits, 17)
 
     @precondition(lambda self: self.sim.acs)
-    @rule(idx=IDX, parity=st.integers(0, 1), tc_off=st.integers(0, 9), bits=gen.ubits(15), dt=gen.ufloat(0.3, 9.9), dt2=DT)
+    @rule(idx=IDX, parity=st.integers(0, 1), tc_off=st.integers(0, 12), bits=gen.ubits(15), dt=gen.ufloat(0.3, 9.9), dt2=DT)
     def pair_flush_more(self, idx, parity, tc_off, bits, dt, dt2):
         self.do("position", idx, parity, tc_off, bits, 17)
         self.do("advance", dt)
@@ -678,8 +681,67 @@ def chk_real(case, note):
     return None
 
 
+# ------------------------------------------------------------------ coverage-guided campaign over histories (thorough tier)
+_FDT = [0.0, 0.4, 1.0, 3.0, 9.99, 10.0, 12.0, 30.0, 58.0, 59.0, 59.5, 60.0, 60.5, 61.0, 62.0, 100.0, 179.9, 180.0, 181.0, 400.0]
+_FT0 = [1000.0, 0.0, -0.9, -500.75, 1.7e9 + 0.5, -61.3]
+
+
+def fuzz_decode(fdp):
+    """bytes -> a plain step list over the primitive Sim operations, every argument inside the domain of the machine's rules
+    (receiver within +-70 deg, at most four aircraft within reach, speeds up to 600 kt, non-negative time steps)"""
+    def fl(lo, hi):       # two bytes per real number: 65536 evenly spaced values including both ends
+        return lo + (hi - lo) * fdp.ConsumeIntInRange(0, 65535) / 65535.0
+    steps = [["init", [fl(-70.0, 70.0), fl(-180.0, 180.0), _FT0[fdp.ConsumeIntInRange(0, len(_FT0) - 1)],
+                       fdp.ConsumeIntInRange(0, 3) != 0, False]]]
+
+    def aircraft():
+        return ["add_aircraft", [fdp.ConsumeIntInRange(0, 5), fdp.ConsumeBool(), fl(-89.0, 89.0), fl(-180.0, 180.0), fl(0.0, 28.0), fl(0.0, 360.0), fl(0.0, 360.0),
+                                 [600.0, 0.0, 45.0, 250.0, 480.0][fdp.ConsumeIntInRange(0, 4)], ["air", "air", "sfc"][fdp.ConsumeIntInRange(0, 2)]]]
+    steps.append(aircraft())
+    n = 0
+    while fdp.remaining_bytes() > 0 and n < 80:
+        n += 1
+        op = fdp.ConsumeIntInRange(0, 15)
+        idx = fdp.ConsumeIntInRange(0, 3)
+        if op in (0, 1, 2):
+            steps.append(["advance", [_FDT[fdp.ConsumeIntInRange(0, len(_FDT) - 1)]]])
+        elif op in (3, 4, 5, 6):
+            steps.append(["position", [idx, fdp.ConsumeIntInRange(0, 1), fdp.ConsumeIntInRange(0, 12), fdp.ConsumeIntInRange(0, (1 << 15) - 1), [17, 17, 18][fdp.ConsumeIntInRange(0, 2)]]])
+        elif op == 7:
+            steps.append(["ident", [idx, fdp.ConsumeIntInRange(0, (1 << 32) - 1)]])
+        elif op == 8:
+            steps.append(["velocity", [idx, fdp.ConsumeIntInRange(0, (1 << 32) - 1)]])
+        elif op == 9:
+            steps.append(["status", [idx, ["tss", "ops", "emerg"][fdp.ConsumeIntInRange(0, 2)], fdp.ConsumeIntInRange(0, (1 << 32) - 1)]])
+        elif op in (10, 11):
+            steps.append(["commb", [["known", "noise", "unknown", "related"][fdp.ConsumeIntInRange(0, 3)], idx,
+                                    ["bds50", "bds60", "bds44", "random", "bds30"][fdp.ConsumeIntInRange(0, 4)], fdp.ConsumeIntInRange(0, (1 << 32) - 1), 20 + fdp.ConsumeIntInRange(0, 1)]])
+        elif op == 12:
+            steps.append(["noise", [idx, 17 + fdp.ConsumeIntInRange(0, 1), fdp.ConsumeIntInRange(0, (1 << 32) - 1)]])
+        elif op == 13:
+            steps.append([["toggle", [idx]], ["turn", [idx, fl(0.0, 360.0), fl(0.0, 600.0)]], aircraft()][fdp.ConsumeIntInRange(0, 2)])
+        else:
+            steps.append(["flush", []])
+    return {"steps": steps}
+
+
+fuzz_check = chk_history
+
+
+def enum_atheris(ctx):
+    from vlib import fuzzleg
+    yield from fuzzleg.campaign("c17", ctx, runs_quick=0, runs_thorough=40000, shards=6, max_len=400, extra=["-len_control=0"])
+
+
+def chk_atheris(case, note):
+    from vlib import fuzzleg
+    return fuzzleg.judge(case, note, chk_history)
+
+
 LEGS = [Leg("real_traffic", chk_real, enum=enum_real, exhaustive=False, doc="the repository's reception log replayed in batches of 1/2/5/17 s"),
         Leg("history", chk_history, quick=4000, thorough=60000, doc="rule-based state machine over message histories; replay re-executes the plain step list")]
 LEGS[1].machine = Machine
 LEGS[1].steps_quick = 60
 LEGS[1].steps_thorough = 120
+LEGS.append(Leg("atheris_history", chk_atheris, enum=enum_atheris, shards_quick=1, shards_thorough=6,
+                doc="libFuzzer campaign: bytes -> step list over the primitive operations, the history oracle inside the target (thorough tier only)"))
